@@ -277,7 +277,7 @@ func (c C14) Run(t *tape.Tape, opt core.RunOpt) (res core.Result) {
 				bad := &workload.TypeSpec{Kind: "goscalar", Name: fmt.Sprintf("Zip-Code%d", t.Draw(10))}
 				frags = append(frags, workload.Fragment{Kind: "poison:validation:go_scalar_with_a_refused_name", Text: bad.SDL(), Spec: bad})
 			} else if poisoned {
-				if sc := gen.PickLoaded("scalar"); sc != nil && t.Bool(1, 3) {
+				if sc := gen.PickLoaded("scalar"); sc != nil && t.Bool(1, 2) {
 					// a Go implementation of a scalar the schema already declares,
 					// in a call that fails (for this or for the next reason)
 					sp := &workload.TypeSpec{Kind: "goscalar", Name: sc.Name}
